@@ -1211,8 +1211,8 @@ func c12GenRestore(r *rand.Rand) *c12Case {
 			}
 		}
 		props := gen.LabelProps(r, fmt.Sprintf("f%d", i))
-		if i == 0 && key != "source" && r.Intn(5) == 0 {
-			props = nil // a bare feature: key and location, no qualifier
+		if i == 0 && r.Intn(5) == 0 {
+			props = nil // a bare feature (a bare source feature too): key and location, no qualifier
 		}
 		k.tab = append(k.tab, gts.Feature{Key: key, Loc: loc, Props: props})
 	}
